@@ -54,7 +54,10 @@ struct Gate { task: u32, label: String, occ: u32, u_task: u32, u_label: String, 
 enum Mode { Ct, Mt(u32) }
 
 #[derive(Clone, Debug)]
-struct PCase { program: Program, init: Vec<(u32, i64)>, tasks: Vec<Vec<TOp>>, mode: Mode, seed: u64, yields: bool, gates: Vec<Gate> }
+struct PCase { program: Program, init: Vec<(u32, i64)>, tasks: Vec<Vec<TOp>>, mode: Mode, seed: u64, yields: bool, gates: Vec<Gate>,
+    /// starvation family: every round keeps its tracked engine alive across `hold` yields (current-thread) or
+    /// `hold` x 400 us of sleep (multi-thread) between two consecutive queries; 0 = no hold (all other families)
+    hold: u32 }
 
 impl PCase {
     fn render(&self) -> String {
@@ -66,10 +69,11 @@ impl PCase {
         for (t, ops) in self.tasks.iter().enumerate() { s.push_str(&format!("task {t} {}\n", render_script(ops))); }
         match self.mode { Mode::Ct => s.push_str(&format!("sched ct {} {}\n", self.seed, if self.yields { 1 } else { 0 })), Mode::Mt(w) => s.push_str(&format!("sched mt {} {w}\n", self.seed)) }
         for g in &self.gates { s.push_str(&format!("gate {} {} {} until {} {} {}\n", g.task, g.label, g.occ, g.u_task, g.u_label, g.u_occ)); }
+        if self.hold > 0 { s.push_str(&format!("hold {}\n", self.hold)); }
         s
     }
     fn parse(text: &str) -> PCase {
-        let mut c = PCase { program: Program::default(), init: vec![], tasks: vec![], mode: Mode::Ct, seed: 0, yields: false, gates: vec![] };
+        let mut c = PCase { program: Program::default(), init: vec![], tasks: vec![], mode: Mode::Ct, seed: 0, yields: false, gates: vec![], hold: 0 };
         for line in text.lines() {
             let line = line.trim();
             if line.is_empty() || line.starts_with('#') || line.starts_with("case") { continue; }
@@ -80,6 +84,7 @@ impl PCase {
                 "task" => { assert_eq!(t[1].parse::<usize>().unwrap(), c.tasks.len()); c.tasks.push(parse_script(&t[2..])); }
                 "sched" => { c.seed = t[2].parse().unwrap(); if t[1] == "ct" { c.mode = Mode::Ct; c.yields = t[3] == "1"; } else { c.mode = Mode::Mt(t[3].parse().unwrap()); } }
                 "gate" => c.gates.push(Gate { task: t[1].parse().unwrap(), label: t[2].into(), occ: t[3].parse().unwrap(), u_task: t[5].parse().unwrap(), u_label: t[6].into(), u_occ: t[7].parse().unwrap() }),
+                "hold" => c.hold = t[1].parse().unwrap(),
                 x => panic!("case line {x}"),
             }
         }
@@ -128,6 +133,7 @@ struct Sched {
     seed: u64,
     yields: bool,
     gates: Vec<Gate>,
+    hold: u32,
     recording: AtomicBool,
     seq: AtomicU64,
     progress: AtomicU64,
@@ -152,7 +158,7 @@ fn label_hash(s: &str) -> u64 { s.bytes().fold(0xcbf2_9ce4_8422_2325u64, |h, b| 
 
 impl Sched {
     fn new(c: &PCase) -> Sched {
-        Sched { ct: c.mode == Mode::Ct, seed: c.seed, yields: c.yields, gates: c.gates.clone(), recording: AtomicBool::new(false), seq: AtomicU64::new(1), progress: AtomicU64::new(0), inner: Mutex::new(Inner { owner: UNKNOWN, ..Default::default() }) }
+        Sched { ct: c.mode == Mode::Ct, seed: c.seed, yields: c.yields, gates: c.gates.clone(), hold: c.hold, recording: AtomicBool::new(false), seq: AtomicU64::new(1), progress: AtomicU64::new(0), inner: Mutex::new(Inner { owner: UNKNOWN, ..Default::default() }) }
     }
     fn now(&self) -> u64 { self.seq.fetch_add(1, Ordering::SeqCst) }
     fn count(&self, task: u32, label: &str) -> u32 { *self.inner.lock().unwrap().counts.get(&(task, label.to_string())).unwrap_or(&0) }
@@ -267,7 +273,12 @@ async fn run_task(engine: Arc<Engine<MemCfg>>, sh: Arc<Shared>, sc: Arc<Sched>, 
                 let t_ret = sc.now();
                 let mut ro = RoundObs { task: tid, t_call, t_ret, t_rel: 0, vals: vec![] };
                 let mut seen: Vec<u32> = vec![];
-                for k in ks {
+                for (qi, k) in ks.into_iter().enumerate() {
+                    // starvation family: the snapshot is kept alive for a while between two queries
+                    if qi > 0 && sc.hold > 0 {
+                        if sc.ct { for _ in 0..sc.hold { tokio::task::yield_now().await; } }
+                        else { tokio::time::sleep(std::time::Duration::from_micros(400 * sc.hold as u64)).await; }
+                    }
                     sc.hpause("h:r:q").await;
                     let lo = sc.now();
                     let v = query_key(&sh, &te, k).await;
@@ -570,7 +581,7 @@ fn gen_case(r: &mut Rng, mt: bool) -> PCase {
     }
     let mut gates = vec![];
     if !mt { let ng = r.below(4); for _ in 0..ng { if let Some(g) = gen_gate(r, &tasks) { gates.push(g); } } }
-    PCase { program, init, tasks, mode: if mt { Mode::Mt(r.range(2, 12) as u32) } else { Mode::Ct }, seed: r.next() % 1_000_000, yields: mt || r.chance(4, 5), gates }
+    PCase { program, init, tasks, mode: if mt { Mode::Mt(r.range(2, 12) as u32) } else { Mode::Ct }, seed: r.next() % 1_000_000, yields: mt || r.chance(4, 5), gates, hold: 0 }
 }
 
 /// exhaustive placements: 2 readers (one round each) × 2 sessions; every reader round gets every single placement
@@ -599,7 +610,7 @@ fn exhaustive_cases(r: &mut Rng, shard: u64, shards: u64) -> Vec<PCase> {
         for a in &p1 { for b in &p2 {
             idx += 1;
             if idx % shards != shard { continue; }
-            out.push(PCase { program: program.clone(), init: vec![(0, 5)], tasks: tasks.clone(), mode: Mode::Ct, seed: r.next() % 1000, yields: false, gates: vec![a.clone(), b.clone()] });
+            out.push(PCase { program: program.clone(), init: vec![(0, 5)], tasks: tasks.clone(), mode: Mode::Ct, seed: r.next() % 1000, yields: false, gates: vec![a.clone(), b.clone()], hold: 0 });
         } }
     }
     out
@@ -608,6 +619,81 @@ fn exhaustive_cases(r: &mut Rng, shard: u64, shards: u64) -> Vec<PCase> {
 /// the witness schedule of `Props/C04.lean` (`snapshot_consistent_asis_refuted`) forced with one gate
 fn f5_case() -> PCase {
     PCase::parse("case phase\nnode 0 in 0 c 0\nnode 1 nm -1 + r 0 c 100\ninit 0 5\ntask 0 R 1 1\ntask 1 S 1 0 7 c ; R 1 1\ntask 2 R 1 1\nsched ct 0 0\ngate 1 phase:w:pre 0 until 0 h:r:rel 0\ngate 2 phase:r:pre 0 until 1 phase:w:bump 0\ngate 1 phase:w:bumped 0 until 2 h:r:rel 0\n")
+}
+
+
+// ------------------------------------------------------------------------------------------------
+// progress oracle: bounded overtaking of a waiting writer (independent of the model)
+// ------------------------------------------------------------------------------------------------
+
+/// one `input_session()` request, read off the hook trace
+#[derive(Clone, Debug)]
+struct WaitObs { writer: u32, req: u64, acq: Option<u64>, n_readers: usize, overtakes: usize, min_full_iters: usize }
+
+/// For every `phase:w:req`: the OVERTAKES = reader requests (`phase:r:req`) emitted after it whose grant
+/// (`phase:r:acq`) was emitted before the writer's `phase:w:acq`; and, per reader task, the number of FULL
+/// iterations (`r:req` .. `rRel`) that lie entirely between the writer's request and its grant.
+/// Emission order is sound for this: an `r:req` emitted after the `w:req` emission was requested later, and a
+/// reader that emitted `r:acq` before the writer emitted `w:acq` acquired first (it holds the lock while it
+/// emits; the writer emits after it acquired; the holdings are disjoint).
+/// On the unchanged code tokio's RwLock is FIFO and write-preferring, so a reader that requests after the writer
+/// is QUEUED waits behind it.  The `w:req` hook is emitted just before the poll that enqueues the writer, so a
+/// reader can slip in between: at most one per reader task per request when nothing awaits in between.
+fn writer_waits(case: &PCase, trace: &[Evt]) -> Vec<WaitObs> {
+    let mut tr: Vec<&Evt> = trace.iter().collect(); tr.sort_by_key(|e| e.hi);
+    let mut out = vec![];
+    for q in tr.iter().filter(|e| e.name == "wReq") {
+        let acq = tr.iter().filter(|e| e.task == q.task && e.name == "wAcq" && e.hi > q.hi).map(|e| e.hi).min();
+        let end = acq.unwrap_or(u64::MAX);
+        let readers: Vec<u32> = (0..case.tasks.len() as u32).filter(|t| *t != q.task && n_rounds(&case.tasks[*t as usize]) > 0).collect();
+        let (mut overtakes, mut min_full) = (0usize, usize::MAX);
+        for rd in &readers {
+            let mut full = 0usize;
+            let evs: Vec<&&Evt> = tr.iter().filter(|e| e.task == *rd).collect();
+            for (i, e) in evs.iter().enumerate() {
+                if e.name != "rReq" || e.hi < q.hi { continue; }
+                let a = evs[i + 1..].iter().find(|x| x.name == "rAcq").map(|x| x.hi).unwrap_or(u64::MAX);
+                if a < end { overtakes += 1; }
+                let rel = evs[i + 1..].iter().find(|x| x.name == "rRel").map(|x| x.hi).unwrap_or(u64::MAX);
+                if rel < end { full += 1; }
+            }
+            min_full = min_full.min(full);
+        }
+        if readers.is_empty() { min_full = 0; }
+        out.push(WaitObs { writer: q.task, req: q.hi, acq, n_readers: readers.len(), overtakes, min_full_iters: min_full });
+    }
+    out
+}
+
+/// the verdict on one request: more overtakes than one per reader task (+1 of slack), or a writer that is still
+/// waiting after every reader task ran 3 full iterations entirely after the request
+fn starved(w: &WaitObs) -> bool { w.overtakes > w.n_readers + 1 || (w.n_readers > 0 && w.min_full_iters >= 3) }
+
+/// starvation family: two inputs a (0), b (1), one derived key 2 = a + b; 2-4 reader tasks that loop
+/// `tracked(); query; hold; query [; hold; query]; drop` so that their snapshots overlap in time; task 0 does a
+/// few such rounds, then asks for a session in the middle (commit or plain drop), then checks
+fn gen_starve_case(r: &mut Rng, mt: bool) -> PCase {
+    let program = Program { nodes: vec![
+        NodeDef { kind: Kind::Input, default: 0, expr: Expr::Const(0) },
+        NodeDef { kind: Kind::Input, default: 0, expr: Expr::Const(0) },
+        NodeDef { kind: Kind::Normal, default: kind_default(Kind::Normal), expr: Expr::Add(Box::new(Expr::Read(0)), Box::new(Expr::Read(1))) }] };
+    let shapes: [&[u32]; 5] = [&[0, 1], &[2, 1], &[0, 2], &[2, 0, 1], &[1, 0]];
+    let n_readers = r.range(2, 4);
+    let mut w = vec![];
+    for _ in 0..r.range(1, 4) { w.push(TOp::Round(r.pick(&shapes).to_vec())); }
+    let n_sess = r.range(1, 2);
+    for i in 0..n_sess {
+        let a = r.below(50) as i64;
+        w.push(TOp::Session(vec![(0, a), (1, 100 - a)], !r.chance(2, 5)));
+        if i + 1 < n_sess { for _ in 0..r.range(1, 2) { w.push(TOp::Round(r.pick(&shapes).to_vec())); } }
+    }
+    w.push(TOp::Round(vec![2, 0, 1]));
+    let mut tasks = vec![w];
+    for _ in 0..n_readers {
+        let k = if mt { r.range(10, 18) } else { r.range(6, 12) };
+        tasks.push((0..k).map(|_| TOp::Round(r.pick(&shapes).to_vec())).collect());
+    }
+    PCase { program, init: vec![(0, 1), (1, 99)], tasks, mode: if mt { Mode::Mt(r.range(2, 8) as u32) } else { Mode::Ct }, seed: r.next() % 1_000_000, yields: false, gates: vec![], hold: r.range(1, 3) as u32 }
 }
 
 // ------------------------------------------------------------------------------------------------
@@ -663,6 +749,7 @@ fn main() {
     let quick = a.tier == "quick";
     let n_ct = a.n.unwrap_or(if quick { 250 } else { 1500 });
     let n_mt = if a.n == Some(0) { 0 } else { a.rest.iter().position(|x| x == "--mt").map(|i| a.rest[i + 1].parse().unwrap()).unwrap_or(if quick { 12 } else { 60 }) };
+    let n_starve: u64 = if a.n == Some(0) { 0 } else { a.rest.iter().position(|x| x == "--starve").map(|i| a.rest[i + 1].parse().unwrap()).unwrap_or(if quick { 24 } else { 120 }) };
     let shard: u64 = a.rest.iter().position(|x| x == "--shard").map(|i| a.rest[i + 1].parse().unwrap()).unwrap_or(0);
     let shards: u64 = a.rest.iter().position(|x| x == "--shards").map(|i| a.rest[i + 1].parse().unwrap()).unwrap_or(1);
     let mut cases: Vec<(String, PCase)> = vec![];
@@ -678,6 +765,7 @@ fn main() {
         }
         for _ in 0..n_ct { cases.push(("ct".into(), gen_case(&mut rng, false))); }
         for _ in 0..n_mt { cases.push(("mt".into(), gen_case(&mut rng, true))); }
+        for i in 0..n_starve { cases.push(("starve".into(), gen_starve_case(&mut rng, i % 4 == 3))); }
         if !quick || a.rest.iter().any(|x| x == "--exhaustive") { for c in exhaustive_cases(&mut rng, shard, shards) { cases.push(("exh".into(), c)); } }
     }
     let mut failures: Vec<Failure> = vec![];
@@ -698,6 +786,30 @@ fn main() {
         }
         let mut fs = judge(case, &ro);
         if order == "fixed" { if let Some(d) = bump_while_reader(&ro.trace) { fs.push(("C04:timestamp-bumped-while-tracked-engine-alive".into(), d)); } }
+        // progress: bounded overtaking of a waiting writer.  Measured on every case; JUDGED where the bound of
+        // one overtake per reader task is sound: no seeded yields between the `w:req` hook and the enqueueing poll
+        // (`yields` off, no gates), i.e. the starvation family and its replays.
+        {
+            let waits = writer_waits(case, &ro.trace);
+            let fam = if case.hold > 0 { if case.mode == Mode::Ct { "starve_ct" } else { "starve_mt" } } else if case.mode == Mode::Ct { "other_ct" } else { "other_mt" };
+            for w in &waits {
+                *dist.entry(format!("writer_requests_{fam}")).or_insert(0) += 1;
+                let b = if w.overtakes >= 6 { "ge6".to_string() } else { w.overtakes.to_string() };
+                *dist.entry(format!("overtakes_per_request_{fam}_{b}")).or_insert(0) += 1;
+                if ro.trace.iter().any(|e| e.name == "rReq" && e.task != w.writer && e.hi > w.req && e.hi < w.acq.unwrap_or(u64::MAX)) { *dist.entry(format!("writer_requests_with_reader_requests_during_the_wait_{fam}")).or_insert(0) += 1; }
+                if w.overtakes > 0 && w.overtakes <= w.n_readers + 1 { *dist.entry(format!("writer_requests_overtaken_within_bound_{fam}")).or_insert(0) += 1; }
+            }
+            if case.hold > 0 && !case.yields && case.gates.is_empty() {
+                if let Some(w) = waits.iter().find(|w| starved(w)) {
+                    // multi-thread: hook emission and enqueue are separated by a few instructions, an OS pre-emption
+                    // there is legitimate; the seeded kind of starvation is systematic, so confirm on two re-runs
+                    let confirmed = case.mode == Mode::Ct || (0..2).all(|_| { let r2 = run_case(case); writer_waits(case, &r2.trace).iter().any(starved) });
+                    if confirmed {
+                        fs.push(("C04:writer-starved".into(), format!("task {}'s input_session() (phase:w:req at event {}) {}: {} tracked() calls requested AFTER it were granted BEFORE it ({} reader tasks, so at most {} can be explained by the gap between the hook and the enqueue); every reader task ran at least {} full tracked..drop iterations entirely inside the wait. The phase lock is FIFO/write-preferring: a reader that asks after a queued writer waits behind it", w.writer, w.req, match w.acq { Some(a) => format!("was granted at event {a}"), None => "was NEVER granted".into() }, w.overtakes, w.n_readers, w.n_readers + 1, w.min_full_iters)));
+                    } else { *dist.entry("starve_mt_unconfirmed".into()).or_insert(0) += 1; }
+                }
+            }
+        }
         let f5w = f5_window(&ro.trace);
         emit_case(&mut out, idx, case, &ro, order);
         *dist.entry(format!("cases_{src}")).or_insert(0) += 1;
